@@ -535,3 +535,22 @@ def _rint(s):
     else: v = f if f % 2 == 0 else f + 1
     return SN(z3.RealVal(v))
 SN.rint = _rint
+
+# --- division by a symbolic term: memoised reciprocal variable (keeps obligations polynomial)
+_RECIP = {}
+def _truediv(s, o):
+    if isinstance(o, SA) or not builtins.isinstance(o, (Sym, _nb.Number, rnp.bool_)): return NotImplemented
+    a, b = s._co(o)
+    if a.sort() == z3.IntSort(): a, b = z3.ToReal(a), z3.ToReal(b)
+    b = z3.simplify(b)
+    if z3.is_rational_value(b):
+        return SN(a * z3.RealVal(str(1 / fractions.Fraction(b.numerator_as_long(), b.denominator_as_long()))))
+    key = b.get_id()
+    if key not in _RECIP:
+        r = z3.Real(f"recip!{len(_RECIP)}"); _RECIP[key] = (r, b)
+    r, _ = _RECIP[key]
+    c = b * r == 1
+    if not any(c.eq(x) for x in E.pc): E.solver.add(c); E.pc.append(c)
+    return SN(a * r)
+SN.__truediv__ = _truediv
+SN.__rtruediv__ = lambda s, o: SN.of(o).__truediv__(s) if builtins.isinstance(o, (Sym, _nb.Number)) else NotImplemented
